@@ -1013,6 +1013,44 @@ pub fn gen(ctx: &mut Ctx) {
             };
             if mine!() { ctx.req(&format!("vedit {} {} {} {} {}", key.0, off, del, hx(&ins), arg)); }
         }
+        // STRUCTURED edits of the signed main header: index entries added behind the last one with their data behind the region
+        // trailer (counts in the intro raised) — the header still parses and the getters serve the new entries, so verification
+        // must fail (seed C02-9: signatures and header digests computed over the immutable region only). One splice from the
+        // intro's count fields to the end of the header.
+        {
+            let h0 = o[2] as usize;
+            let n = u32::from_be_bytes([pkg[h0 + 8], pkg[h0 + 9], pkg[h0 + 10], pkg[h0 + 11]]) as usize;
+            let dl = u32::from_be_bytes([pkg[h0 + 12], pkg[h0 + 13], pkg[h0 + 14], pkg[h0 + 15]]) as usize;
+            let index = &pkg[h0 + 16..h0 + 16 + 16 * n];
+            let store = &pkg[h0 + 16 + 16 * n..h0 + 16 + 16 * n + dl];
+            if h0 + 16 + 16 * n + dl == o[3] as usize {
+                // (tag, type, data): a %post scriptlet, an unknown tag, an INT32 (4-aligned), a tag that sorts before the others
+                let adds: [&[(u32, u32, &[u8])]; 4] = [
+                    &[(1024, 6, b"echo injected\0")],
+                    &[(70000, 6, b"x\0")],
+                    &[(1024, 6, b"a\0"), (1003, 4, &[0, 0, 0, 7])],
+                    &[(101, 6, b"early\0")],
+                ];
+                for add in adds.iter() {
+                    let mut new_index = index.to_vec();
+                    let mut new_store = store.to_vec();
+                    for (tag, ty, data) in add.iter() {
+                        if *ty == 4 { while new_store.len() % 4 != 0 { new_store.push(0); } }
+                        new_index.extend_from_slice(&tag.to_be_bytes());
+                        new_index.extend_from_slice(&ty.to_be_bytes());
+                        new_index.extend_from_slice(&(new_store.len() as u32).to_be_bytes());
+                        new_index.extend_from_slice(&1u32.to_be_bytes());
+                        new_store.extend_from_slice(data);
+                    }
+                    let mut ins = Vec::new();
+                    ins.extend_from_slice(&((n + add.len()) as u32).to_be_bytes());
+                    ins.extend_from_slice(&(new_store.len() as u32).to_be_bytes());
+                    ins.extend_from_slice(&new_index);
+                    ins.extend_from_slice(&new_store);
+                    if mine!() { ctx.req(&format!("vedit {} {} {} {} {}", key.0, h0 + 8, 8 + 16 * n + dl, hx(&ins), arg)); }
+                }
+            }
+        }
         // append after the payload
         for k in [1usize, 2, 7, 64] {
             let ins = r.bytes(k);
